@@ -403,6 +403,17 @@ func Join(toks []Tok, layout int, gap int, extra string) (string, []Span) {
 	var sb strings.Builder
 	spans := make([]Span, len(toks))
 	line, lineStart := 1, 0
+	depth := 0
+	indent := func(i int) string { // pretty layouts: indentation by brace depth; never column 1 inside a class
+		d := depth
+		if i+1 < len(toks) && toks[i+1].S == "}" {
+			d--
+		}
+		if d < 0 {
+			d = 0
+		}
+		return "\n" + strings.Repeat("  ", d)
+	}
 	write := func(s string) {
 		for i := 0; i < len(s); i++ {
 			if s[i] == '\n' {
@@ -415,6 +426,11 @@ func Join(toks []Tok, layout int, gap int, extra string) (string, []Span) {
 	for i, t := range toks {
 		spans[i] = Span{Off: sb.Len(), Len: len(t.S), Line: line, Col: sb.Len() - lineStart + 1}
 		write(t.S)
+		if t.S == "{" {
+			depth++
+		} else if t.S == "}" {
+			depth--
+		}
 		if i == gap {
 			write(extra)
 		}
@@ -422,7 +438,7 @@ func Join(toks []Tok, layout int, gap int, extra string) (string, []Span) {
 		switch layout {
 		case LayoutPretty:
 			if t.NL {
-				write("\n  ")
+				write(indent(i))
 			} else if !last && prettyGap(t.S, toks[i+1].S) {
 				write(" ")
 			}
